@@ -121,7 +121,7 @@ func (p *printer) commentsHaveNewline(list []*ast.Comment) bool {
 			// not all comments on the same line
 			return true
 		}
-		if t := c.Text; len(t) >= 2 && (t[1] == '/' || strings.Contains(t, "\n")) {
+		if t := c.Text; isLineComment(t) || strings.Contains(t, "\n") {
 			return true
 		}
 	}
@@ -357,7 +357,7 @@ func (p *printer) writeCommentPrefix(pos, next token.Position, prev *ast.Comment
 		return
 	}
 
-	if pos.Line == p.last.Line && (prev == nil || prev.Text[1] != '/') {
+	if pos.Line == p.last.Line && (prev == nil || !isLineComment(prev.Text)) {
 		// comment on the same line as last item:
 		// separate with at least one separator
 		hasSep := false
@@ -455,7 +455,7 @@ func (p *printer) writeCommentPrefix(pos, next token.Position, prev *ast.Comment
 
 		// make sure there is at least one line break
 		// if the previous comment was a line comment
-		if n == 0 && prev != nil && prev.Text[1] == '/' {
+		if n == 0 && prev != nil && isLineComment(prev.Text) {
 			n = 1
 		}
 
@@ -628,6 +628,18 @@ func stripCommonPrefix(lines []string) {
 	}
 }
 
+// isLineComment reports whether a comment runs to the end of its line:
+// the //-style, the #-style and the 注-style (which need not have a second byte
+// equal to '/').
+func isLineComment(text string) bool {
+	return strings.HasPrefix(text, "//") || strings.HasPrefix(text, "#") || strings.HasPrefix(text, token.K_注)
+}
+
+// isBlockComment reports whether text is a /*-style comment.
+func isBlockComment(text string) bool {
+	return strings.HasPrefix(text, "/*")
+}
+
 func (p *printer) writeComment(comment *ast.Comment) {
 	text := comment.Text
 	pos := p.posFor(comment.Pos())
@@ -640,13 +652,8 @@ func (p *printer) writeComment(comment *ast.Comment) {
 		p.indent = 0
 	}
 
-	// shortcut common case of #-style comments
-	if text[0] == '#' {
-		p.writeString(pos, trimRight(text), true)
-		return
-	}
-	// shortcut common case of //-style comments
-	if text[0] == '/' && text[1] == '/' {
+	// shortcut common case of line comments (#-style, //-style, 注-style)
+	if isLineComment(text) {
 		p.writeString(pos, trimRight(text), true)
 		return
 	}
@@ -760,7 +767,7 @@ func (p *printer) intersperseComments(next token.Position, tok token.Token) (wro
 		// use that information to decide more directly.
 		needsLinebreak := false
 		if p.mode&noExtraBlank == 0 &&
-			last.Text[1] == '*' && p.lineFor(last.Pos()) == next.Line &&
+			isBlockComment(last.Text) && p.lineFor(last.Pos()) == next.Line &&
 			tok != token.COMMA &&
 			(tok != token.RPAREN || p.prevOpen == token.LPAREN) &&
 			(tok != token.RBRACK || p.prevOpen == token.LBRACK) {
@@ -772,7 +779,7 @@ func (p *printer) intersperseComments(next token.Position, tok token.Token) (wro
 		}
 		// Ensure that there is a line break after a //-style comment,
 		// before EOF, and before a closing '}' unless explicitly disabled.
-		if last.Text[1] == '/' ||
+		if isLineComment(last.Text) ||
 			tok == token.EOF ||
 			tok == token.RBRACE && p.mode&noExtraLinebreak == 0 {
 			needsLinebreak = true
